@@ -803,6 +803,17 @@ def objects(rng):
         "ssasig.parse": ssa.Sig(rng.getrandbits(256), rng.getrandbits(256), **cv),
         "bmssig.parse": bms.Sig(rng.getrandbits(8), dsa.Sig(rng.getrandbits(256), rng.getrandbits(256), check_validity=False), **cv),
         "keyorigin.parse": BIP32KeyOrigin(rb(4), [u32() for _ in range(rng.choice([0, 1, 3, 6]))], **cv),
+        "sendcmpct.parse": P.SendCmpct(rng.choice([False, True]), rng.choice([1, 2, 2**64 - 1, rng.getrandbits(64)]), **cv),
+        "getcfilters.parse": rng.choice([P.GetCFilters, P.GetCFHeaders])(rng.choice([0, 1, 255]), u32(), rb(32), **cv),
+        "cfilter.parse": P.CFilter(rng.choice([0, 255]), rb(32), g_script(rng), **cv),
+        "cfheaders.parse": P.CFHeaders(rng.choice([0, 7]), rb(32), rb(32), [rb(32) for _ in range(rng.choice([0, 1, 3]))], **cv),
+        "getcfcheckpt.parse": P.GetCFCheckpt(rng.choice([0, 1, 255]), rb(32), **cv),
+        "cfcheckpt.parse": P.CFCheckpt(rng.choice([0, 9]), rb(32), [rb(32) for _ in range(rng.choice([0, 1, 4]))], **cv),
+        "getblocks=getheaders.parse": P.GetBlocks(i32(), [rb(32) for _ in range(rng.choice([0, 2]))], rb(32), **cv),
+        "pong=ping.parse": P.Pong(rng.getrandbits(64), **cv),
+        "getdata=inv.parse": P.GetData([inventory() for _ in range(rng.choice([0, 2]))], **cv),
+        "notfound=inv.parse": P.NotFound([inventory() for _ in range(rng.choice([0, 1]))], **cv),
+        "varbytes.parse": g_script(rng),
     }
     return out
 
@@ -944,12 +955,12 @@ def run(ctx):
     per_op = {}
     for _ in range(ctx.n(120, 2500)):
         for op, x in objects(rng).items():
-            try:
-                per_op.setdefault(op, []).append(ser_case(op, x))
+            try:       # `name=op`: a class that shares the wire layout (and the model codec) of another one
+                per_op.setdefault(op.split("=")[0], []).append(ser_case(op.split("=")[-1], x))
             except Exception as e:  # noqa: BLE001 - e.g. an amount the signed field cannot hold
                 ctx.count("c05.ser.unserializable", f"{op}:{type(e).__name__}")
     for op, cases in per_op.items():
-        ctx.correspond(op.replace(".parse", ".ser"), EXE, cases)
+        ctx.correspond(op.replace(".parse", "") + ".ser", EXE, cases)
 
     from . import c05_extra
     c05_extra.run(ctx)
